@@ -360,19 +360,26 @@ Value Search::search(Position& position, Depth depth, Value alpha, Value beta,
         EXIT_SEARCH(Value(0));
     }
 
+    bool is_in_check = position.is_in_check(position.color());
+
     // cannot check it in ROOT_NODE as it might return
     // without any move
-    if (!ROOT_NODE && (position.is_repeated() || position.is_draw())) EXIT_SEARCH(VALUE_DRAW);
+    // (a mate delivered by the move that completes the fifty moves stands:
+    // a side in check is looked at before the fifty-move draw is scored)
+    const bool drawn =
+        !ROOT_NODE && (position.is_repeated() || position.is_draw());
+    if (drawn && !(is_in_check && position.rule50())) EXIT_SEARCH(VALUE_DRAW);
 
     Move* begin = ROOT_NODE ? &(*_root_moves.begin()) : MOVE_LIST[info->_ply];
     Move* end = ROOT_NODE ? &(*_root_moves.end())
                           : generate_moves(position, position.color(), begin);
     const int n_moves = end - begin;
 
-    bool is_in_check = position.is_in_check(position.color());
     if (is_in_check) depth++;
 
     if (n_moves == 0) EXIT_SEARCH(is_in_check ? lost_in(0) : VALUE_DRAW);
+
+    if (drawn) EXIT_SEARCH(VALUE_DRAW);
 
     if (depth == 0 || info->_ply >= MAX_DEPTH)
     {
@@ -700,7 +707,9 @@ Value Search::quiescence_search(Position& position, Depth depth, Value alpha,
     if (depth <= 0)
         EXIT_QSEARCH(is_in_check ? VALUE_DRAW : _scorer.score(position));
 
-    if (position.is_draw()) EXIT_QSEARCH(VALUE_DRAW);
+    // (checkmate comes before the fifty-move draw, see search())
+    const bool drawn = position.is_draw();
+    if (drawn && !(is_in_check && position.rule50())) EXIT_QSEARCH(VALUE_DRAW);
 
     // update search stats
     _stats.nodes_searched++;
@@ -729,6 +738,8 @@ Value Search::quiescence_search(Position& position, Depth depth, Value alpha,
     const int n_moves = end - begin;
 
     if (n_moves == 0) EXIT_QSEARCH(is_in_check ? lost_in(0) : VALUE_DRAW);
+
+    if (drawn) EXIT_QSEARCH(VALUE_DRAW);
 
     _move_orderer.order_moves(position, begin, end, info);
 
